@@ -63,7 +63,7 @@ pub mod io {
         /// ASSUMED: when a read fails for another reason, the same error is yielded again on
         /// every later `next()` (the iterator never ends): `endless` with a hard error last.
         #[verifier::external_body]
-        pub fn lines(self) -> (r: crate::shims::iter::Iter<Result<String>>)
+        pub fn lines_(self) -> (r: crate::shims::iter::Iter<Result<String>>)
             ensures
                 self.file_view().reliable ==> !r@.endless && r@.items == lines_of(crate::shims::std::fs::unread(self.file_view())),
                 r@.endless ==> r@.items.len() > 0 && is_hard_error(r@.items.last()),
